@@ -162,6 +162,7 @@ static void sdo_world_build(uint32_t nmt_operational)
  * their depth bound - stale-field reads such as the A3h-while-idle defect are found there. */
 static struct { CO_SDO sdo[CO_SSDO_N]; uint8_t buf[sizeof SdoBuf]; uint32_t off[7]; int active; } SdoSave;
 static void sdo_prehash(int phase);
+static int sdo_coarse;
 static int sdo_find(uint16_t idx, uint8_t sub) { for (int i = 0; i < O_N; i++) if (OBJ[i].idx == idx && OBJ[i].sub == sub) return i; return -1; }
 static int sdo_index_exists(uint16_t idx)
 {
@@ -192,7 +193,8 @@ static void sdo_model_init(void)
 {
     for (int i = 0; i < CO_SSDO_N; i++) { sm_reset(&SM[i]); sdo_dirty_obj[i] = -1; }
     W_REG(SM); W_REG(sdo_dirty_obj);
-    if (mc_opt("coarse", 0)) w_prehash = sdo_prehash;
+    sdo_coarse = mc_opt("coarse", 0);
+    if (sdo_coarse) w_prehash = sdo_prehash;
 }
 
 static uint32_t f_mux(const uint8_t *d) { return ((uint32_t)d[1]) | ((uint32_t)d[2] << 8) | ((uint32_t)d[3] << 16); }
@@ -649,12 +651,15 @@ static void sdo_prehash(int phase)
             if (st == S_IDLE && (s->Obj != 0 || s->Blk.State != BLK_IDLE)) continue;       /* model and implementation disagree about idleness: keep everything */
             s->Abort = 0;
             if (st == S_IDLE) { s->Idx = 0; s->Sub = 0; }
-            if (!seg) memset(&s->Seg, 0, sizeof s->Seg);
-            if (!blk) { CO_SDO_BLK_STATE keep = s->Blk.State; memset(&s->Blk, 0, sizeof s->Blk); s->Blk.State = keep; }
+            /* coarse=2 ("residue"): the cursors, counters and flags a finished transfer leaves behind stay part of the state
+             * identity - only buffer bytes and multiplexer are dropped - so that a later transfer which wrongly depends on
+             * such a leftover is explored from every leftover value */
+            if (!seg && sdo_coarse < 2) memset(&s->Seg, 0, sizeof s->Seg);
+            if (!blk && sdo_coarse < 2) { CO_SDO_BLK_STATE keep = s->Blk.State; memset(&s->Blk, 0, sizeof s->Blk); s->Blk.State = keep; }
             if (st == S_BLKDL || st == S_BLKDL_END) {                                       /* the buffer holds unflushed segments: content up to the fill level is live */
                 if (s->Buf.Num < CO_SDO_BUF_BYTE) memset(SdoBuf + (size_t)n * CO_SDO_BUF_BYTE + s->Buf.Num, 0, CO_SDO_BUF_BYTE - s->Buf.Num);
             } else {
-                s->Buf.Num = 0; s->Buf.Cur = s->Buf.Start;
+                if (sdo_coarse < 2) { s->Buf.Num = 0; s->Buf.Cur = s->Buf.Start; }
                 memset(SdoBuf + (size_t)n * CO_SDO_BUF_BYTE, 0, CO_SDO_BUF_BYTE);
             }
         }
